@@ -281,6 +281,22 @@ def units(tier):
         insts.append(malloc_inst(elem, tier, offset_backend=True))
         insts.append(malloc_inst(elem, tier, offset_backend=True, single=True))
     insts.append(same_sandbox_dispatch_inst(tier))
+    # position "granting access": the tainted pointer handed back is the address the BACKEND granted (contracts of C10, native path)
+    from . import C10
+    it = C10.native_access_inst('grant', 'char16_t', 2, tier)
+    it.name = 'c03_granted_pointer_is_the_backends_address'
+    it.prop = PROP
+    insts.append(it)
+    from . import C02
+    insts.append(C02.cast_shape_inst(tier, PROP, 'c03'))
+    # cell_inv (a tainted_volatile object lives in sandbox memory) rests on a C++ access rule: application code cannot create
+    # one - not by default construction, not by copying or moving one out of the sandbox
+    from .common import access_fact_inst
+    nc = lambda t: ('!std::is_default_constructible_v<%s> && !std::is_copy_constructible_v<%s> && !std::is_move_constructible_v<%s>' % (t, t, t))
+    insts.append(access_fact_inst('c03_sandbox_cells_cannot_be_created_by_the_application', PROP,
+                                  [('a_scalar_cell_cannot_be_constructed_or_copied', nc('tainted_volatile<int, vsbx>')),
+                                   ('a_pointer_cell_cannot_be_constructed_or_copied', nc('tainted_volatile<int*, vsbx>')),
+                                   ('an_array_cell_cannot_be_constructed_or_copied', nc('tainted_volatile<int[4], vsbx>'))], tier))
     insts += arith_insts(tier)
     # &(*parr)[i] / &p->arr[i]: element cells of an in-sandbox array stay inside the array object (contract of C17),
     # hence inside the sandbox whenever the array cell is (cell_inv of the whole array)
